@@ -389,6 +389,9 @@ def c12():
                 "quick" if (c, r) in [(2, 3), (1, 1)] and not is_row else "thorough")
     for (c, r) in [(2, 3), (1, 1), (3, 2)]:
         add("C12", f"c12_leak_remove_col_zst_{c}x{r}", f"c12::leak_drain_zst(false, {c}, {r})", 10, "quick" if (c, r) != (3, 2) else "thorough", also=["C05"] if (c, r) == (2, 3) else [])
+    for (c, r) in [(9, 1), (10, 1), (9, 2)]:
+        add("C12", f"c12_leak_pop_col_u8_{c}x{r}", f"c12::leak_pop_u8(false, {c}, {r})", 14, "quick" if (c, r) == (9, 2) else "thorough")
+        add("C12", f"c12_leak_pop_row_u8_{r}x{c}", f"c12::leak_pop_u8(true, {r}, {c})", 14, "quick" if (c, r) == (9, 2) else "thorough")
     # (the row variant is the recorded DrainRow finding for every element type; pop_row - the last row - is leak-safe)
     add("C12", "c12_leak_remove_row_zst_2x1", "c12::leak_drain_zst(true, 2, 1)", 10, "quick")
     names = {0: "rows", 1: "rows_mut", 2: "col", 3: "col_mut", 4: "cells", 5: "cells_mut", 6: "view", 7: "view_mut", 8: "into_iter"}
@@ -643,6 +646,7 @@ def c20():
     for (a, bb) in [((2, 2), (2, 2)), ((1, 4), (4, 1)), ((2, 2), (1, 4)), ((0, 0), (0, 0)), ((2, 3), (2, 3)), ((2, 3), (3, 2)), ((1, 1), (0, 0))]:
         q = "quick" if (a, bb) in [((2, 2), (2, 2)), ((1, 4), (4, 1)), ((0, 0), (0, 0)), ((2, 2), (1, 4))] else "thorough"
         add("C20", f"c20_eq_hash_{a[0]}x{a[1]}_{bb[0]}x{bb[1]}", f"c20::eq_hash({a[0]}, {a[1]}, {bb[0]}, {bb[1]})", 40, q)
+    add("C20", "c20_unit_eq_hash", "c20::unit_eq_hash()", 40, "quick")
     # the view constructors' contents are C03's over_slice harnesses
     for h in list(CATALOG):
         if h.name.startswith("c03_over_") and h.tier == "quick":
@@ -666,12 +670,22 @@ def wide():
         for (c, r) in [(17, 2), (33, 2), (2, 17), (8, 8)]:
             add("C13", f"c13_{nm}_owned_wide_{c}x{r}", f"c13::inrange_b::<72>({which}, 0, {c}, {r})", max(c, r) + 3, Q if (c, r) in [(17, 2), (33, 2), (8, 8)] else T)
         add("C13", f"c13_{nm}_viewmut_wide_18x3", f"c13::inrange_b::<72>({which}, 1, 18, 3)", 21, T, also=["C04"])
+        # tall windows (9 rows of a 3-wide parent): row loops unrolled by 4 / 8, stride != width
+        add("C13", f"c13_{nm}_viewmut_tall_3x9", f"c13::inrange_b::<72>({which}, 1, 3, 9)", 12, Q, also=["C04"])
+        add("C13", f"c13_{nm}_mini_tall_3x9", f"c13::inrange_b::<72>({which}, 2, 3, 9)", 12, T)
+        add("C13", f"c13_{nm}_owned_tall_2x9", f"c13::inrange_b::<72>({which}, 0, 2, 9)", 12, Q)
         add("C13", f"c13_{nm}_mini_wide_18x3", f"c13::inrange_b::<72>({which}, 2, 18, 3)", 21, T)
     for rows in (True, False):
         nm = "flip_rows" if rows else "flip_cols"
         for (c, r) in [(17, 2), (2, 17), (8, 8)]:
             add("C15", f"c15_{nm}_owned_wide_{c}x{r}", f"c15::flip_b::<72>({b(rows)}, 0, {c}, {r}, 0, {c})", max(c, r) + 3, Q)
     # (flips on an 18x3 window and translate on 2x17 / 8x8 exhaust CBMC's memory: not registered)
+    for rows in (True, False):
+        nm = "flip_rows" if rows else "flip_cols"
+        add("C15", f"c15_{nm}_view_tall_3x9", f"c15::flip_b::<72>({b(rows)}, 1, 3, 9, 0, 2)", 12, T, also=["C04"])
+    for mr in (1, 4):
+        add("C15", f"c15_translate_view_tall_2x9_mr{mr}", f"c15::translate_b::<72>(1, 3, 9, 0, 0, 2, 9, {mr})", 12, T, stubs=[ROTATE_STUB], also=["C04"])
+        add("C15", f"c15_translate_owned_tall_2x9_mr{mr}", f"c15::translate_b::<72>(0, 2, 9, 0, 0, 2, 9, {mr})", 12, T, stubs=[ROTATE_STUB])
     add("C15", "c15_translate_owned_wide_17x2_mr1", "c15::translate_b::<72>(0, 17, 2, 0, 0, 17, 2, 1)", 20, T, stubs=[ROTATE_STUB])
     add("C15", "c15_translate_view_wide_17x2_mr1", "c15::translate_b::<72>(1, 18, 3, 1, 1, 18, 3, 1)", 21, T, stubs=[ROTATE_STUB], also=["C04"])
     for mode, nm in {0: "insert_row", 2: "insert_col"}.items():
